@@ -83,11 +83,12 @@ theorem newListType_asList {t t' : FTy} {n : Bool} (h : newListType t n = some t
 
 end FTy
 
-/-- F-12 exactly: with a variable operand whose type was inferred from the property, the operand
-check panics iff the operator is an ordering and the property's base type is not orderable. -/
+/-- With a variable operand whose type was inferred from the property, the operand check never
+panics (before the fix of F-12 it did for an ordering operator on a non-orderable property): every
+`as_tag().unwrap()` sits behind a type comparison that a variable's inferred type passes. -/
 theorem binaryOperandTypesValid_variable {op : BinOp} {left varType : FTy} {name : String}
     (hinf : inferVariableType left (.bin op) = .ok varType) :
-    Sat (fun s => s = .asTagUnwrap ∧ op.cls = .ordering ∧ left.isOrderable = false)
+    Sat (fun _ => False)
       (binaryOperandTypesValid op left (.variable name varType) none) (fun _ => True) := by
   unfold inferVariableType at hinf
   unfold binaryOperandTypesValid
@@ -99,7 +100,7 @@ theorem binaryOperandTypesValid_variable {op : BinOp} {left varType : FTy} {name
     simp only [FTy.isOrderable_withNullability, FTy.eqIgn_withNullability]
     by_cases ho : left.isOrderable = true
     · simp [ho, Bind.bind, Res.bind, Sat]
-    · simp [ho, tagMismatch, ArgM.asTag, Bind.bind, Res.bind, Sat]
+    · simp [ho, ArgM.asTag, Bind.bind, Res.bind, Sat]
   · split at hinf
     · rename_i inner hin
       cases hinf
@@ -266,8 +267,8 @@ theorem referenceTag_sat' {st : St} (hinv : st.Inv) (name : String) (useVid : Vi
     ⟨h.1, ⟨h.2.1, h.2.2.1, h.2.2.2.1, h.2.2.2.2.1, h.2.2.2.2.2.1, h.2.2.2.2.2.2.1,
       h.2.2.2.2.2.2.2.1, h.2.2.2.2.2.2.2.2⟩⟩
 
-/-- The panic sites of `make_filter_expr` that inputs can reach: F-12 and N-6. -/
-def FilterSite (s : Site) : Prop := s = .asTagUnwrap ∨ s = .oneOfListDepth
+/-- The panic site of `make_filter_expr` that inputs can reach: N-6. -/
+def FilterSite (s : Site) : Prop := s = .oneOfListDepth
 
 theorem inferVariableType_sat (left : FTy) (op : BinOp) :
     Sat (fun s => s = .oneOfListDepth) (inferVariableType left (.bin op)) (fun _ => True) := by
@@ -292,12 +293,12 @@ theorem makeFilterExpr_sat {st : St} (hinv : st.Inv) (vid : Vid) (ty : FTy) (fd 
     cases hi : inferVariableType ty (.bin op) with
     | panic s =>
       rw [hi] at hinf
-      exact Or.inr hinf
+      exact hinf
     | err e => exact ⟨hinv, St.TagOnly.refl _⟩
     | ok varType =>
       simp only
       refine Sat.bind ((binaryOperandTypesValid_variable (name := varName) hi).monoK
-        (fun s h => Or.inl h.1)) fun errs _ => ?_
+        (fun s h => h.elim)) fun errs _ => ?_
       split <;> exact ⟨hinv, St.TagOnly.refl _⟩
   · rename_i op tagName
     refine Sat.bind ((referenceTag_sat' hinv tagName vid).monoK (fun _ h => h.elim)) fun r hr => ?_
